@@ -101,7 +101,24 @@ static void prop(Tape &t, Ctx &c) {
             case 8: if (u.size() >= (dt ? 25u : 9u)) { size_t h = (dt ? 13 : 5) + 1; uint32_t v = t.u8() & 1 ? 0xffffff : (uint32_t) t.u16(); u[h] = (uint8_t) (v >> 16); u[h + 1] = (uint8_t) (v >> 8); u[h + 2] = (uint8_t) v; } break; // handshake length
             case 9: if (dt && u.size() >= 25) { size_t h = 13 + 6; for (int i = 0; i < 6; i++) u[h + i] = t.u8() & ((kind & 0x80) ? 0xff : 0x03); } else if (!u.empty()) u[0] = (uint8_t) (20 + t.u8() % 5); break;   // DTLS fragment offset/length, or record type
             case 10: { // hello-aware: session-id length / following vector lengths of a ClientHello/ServerHello in this unit
-                size_t hb = (dt ? 13 + 12 : 5 + 4); if (u.size() > hb + 35 && u[0] == 22 && (u[dt ? 13 : 5] == 1 || u[dt ? 13 : 5] == 2)) { size_t sidoff = hb + 34; uint8_t v = t.u8(); if (kind & 0x80) { size_t rem = u.size() - sidoff - 1; /* lengths just past the 32-byte maximum that still fit into the message are the interesting ones */ switch (v & 3) { case 0: v = 33; break; case 1: v = (uint8_t) (33 + (v >> 2) % 32); break; case 2: v = (uint8_t) std::min<size_t>(rem, 255); break; default: break; } u[sidoff] = v; } else { size_t o2 = sidoff + 1 + u[sidoff]; if (o2 + 1 < u.size()) { u[o2] = v; u[o2 + 1] = t.u8(); } } } break; }
+                size_t hb = (dt ? 13 + 12 : 5 + 4);
+                if (!dt && !(kind & 0x80) && (kind & 0x40) && u.size() > hb + 38 && u[0] == 22 && u[5] == 2 && u.size() == 9 + ((size_t) u[6] << 16 | (size_t) u[7] << 8 | u[8])) {
+                    // ServerHello (TLS <= 1.2, alone in its record) re-issued with an extension made empty and placed last (ec_point_formats, or the
+                    // k-th one it carries), all lengths consistent, and cut into two records: the client parses the reassembled message from an
+                    // exact-size heap block, so a parser that reads a byte of an empty extension reads past the block
+                    size_t o = hb + 34; o += 1 + u[o]; o += 3;
+                    if (o <= u.size()) { std::vector<std::pair<uint16_t, Bytes>> ex; if (o + 2 <= u.size()) { size_t p = o + 2, e = u.size(); while (p + 4 <= e) { size_t l = (size_t) u[p + 2] << 8 | u[p + 3]; if (p + 4 + l > e) break; ex.emplace_back((uint16_t) (u[p] << 8 | u[p + 1]), Bytes(u.begin() + p + 4, u.begin() + p + 4 + l)); p += 4 + l; } }
+                        uint8_t sel = t.u8(); uint16_t ty = 11; if ((sel & 1) && !ex.empty()) ty = ex[(sel >> 1) % ex.size()].first;
+                        for (size_t i = 0; i < ex.size();) { if (ex[i].first == ty) ex.erase(ex.begin() + i); else i++; } ex.emplace_back(ty, Bytes());
+                        Bytes body(u.begin() + hb, u.begin() + o), blk; for (auto &x : ex) { blk.push_back((uint8_t) (x.first >> 8)); blk.push_back((uint8_t) x.first); blk.push_back((uint8_t) (x.second.size() >> 8)); blk.push_back((uint8_t) x.second.size()); blk.insert(blk.end(), x.second.begin(), x.second.end()); }
+                        body.push_back((uint8_t) (blk.size() >> 8)); body.push_back((uint8_t) blk.size()); body.insert(body.end(), blk.begin(), blk.end());
+                        Bytes hs = { 2, (uint8_t) (body.size() >> 16), (uint8_t) (body.size() >> 8), (uint8_t) body.size() }; hs.insert(hs.end(), body.begin(), body.end());
+                        size_t cut = 4 + 1 + t.u8() % (hs.size() - 5); Bytes nu;
+                        for (int part = 0; part < 2; part++) { size_t a = part ? cut : 0, b = part ? hs.size() : cut; nu.push_back(22); nu.push_back(u[1]); nu.push_back(u[2]); nu.push_back((uint8_t) ((b - a) >> 8)); nu.push_back((uint8_t) (b - a)); nu.insert(nu.end(), hs.begin() + a, hs.begin() + b); }
+                        u.swap(nu); c.count("serverhello-empty-extension-last-two-records"); }
+                    break;
+                }
+                if (u.size() > hb + 35 && u[0] == 22 && (u[dt ? 13 : 5] == 1 || u[dt ? 13 : 5] == 2)) { size_t sidoff = hb + 34; uint8_t v = t.u8(); if (kind & 0x80) { size_t rem = u.size() - sidoff - 1; /* lengths just past the 32-byte maximum that still fit into the message are the interesting ones */ switch (v & 3) { case 0: v = 33; break; case 1: v = (uint8_t) (33 + (v >> 2) % 32); break; case 2: v = (uint8_t) std::min<size_t>(rem, 255); break; default: break; } u[sidoff] = v; } else { size_t o2 = sidoff + 1 + u[sidoff]; if (o2 + 1 < u.size()) { u[o2] = v; u[o2 + 1] = t.u8(); } } } break; }
             case 11: { // first bytes of the handshake body (vector length prefixes of Certificate, KeyExchange, CertificateRequest, NewSessionTicket...)
                 size_t hb = (dt ? 13 + 12 : 5 + 4);
                 if (!dt && (kind & 0x40) && u.size() >= hb + 6 && u[0] == 22 && u[5] == 4) {
